@@ -7,7 +7,7 @@ applied on top.
 """
 import itertools
 
-from aiortc import RTCConfiguration, RTCBundlePolicy, RTCRtpSender
+from aiortc import RTCConfiguration, RTCBundlePolicy, RTCRtpSender, RTCSessionDescription
 from aiortc import sdp as SDP
 from vt.enumcheck import Tally, pmap, result
 from vt.pcworld import PcWorld, PendingTrack
@@ -109,16 +109,40 @@ def build(w, cfg):
     return a, b, chans
 
 
-def negotiate(w, offerer, answerer):
-    """Returns (offer, answer) descriptions; raises whatever the calls raise."""
+def renumber(desc):
+    """The same session in another peer's numbering: dynamic payload types p -> 223 - p (96..127 reversed) and header
+    extension ids e -> 15 - e, applied consistently to m=, rtpmap, fmtp (apt= included), rtcp-fb and extmap lines.  The
+    mapping is an involution: every description crossing between the two peers, in either direction, goes through it, so
+    each side sees a consistent peer that simply numbers things differently (as a browser does)."""
+    import re
+    pt = lambda m: str(223 - int(m)) if 96 <= int(m) <= 127 else m
+    out = []
+    for line in desc.sdp.split("\r\n"):
+        if line.startswith(("m=audio", "m=video")):
+            f = line.split(" ")
+            line = " ".join(f[:3] + [pt(x) for x in f[3:]])
+        elif re.match(r"a=(rtpmap|fmtp|rtcp-fb):\d+", line):
+            line = re.sub(r"^(a=(?:rtpmap|fmtp|rtcp-fb):)(\d+)", lambda m: m.group(1) + pt(m.group(2)), line)
+            line = re.sub(r"\bapt=(\d+)", lambda m: "apt=" + pt(m.group(1)), line)
+        elif line.startswith("a=extmap:"):
+            line = re.sub(r"^a=extmap:(\d+)", lambda m: "a=extmap:%d" % (15 - int(m.group(1))), line)
+        out.append(line)
+    return RTCSessionDescription(sdp="\r\n".join(out), type=desc.type)
+
+
+def negotiate(w, offerer, answerer, foreign=False):
+    """Returns (offer as the answerer saw it, answer as the answerer made it); raises whatever the calls raise."""
+    tr = renumber if foreign else (lambda d: d)
+
     async def go():
         offer = await offerer.createOffer()
         await offerer.setLocalDescription(offer)
-        await answerer.setRemoteDescription(offerer.localDescription)
+        seen = tr(offerer.localDescription)
+        await answerer.setRemoteDescription(seen)
         answer = await answerer.createAnswer()
         await answerer.setLocalDescription(answer)
-        await offerer.setRemoteDescription(answerer.localDescription)
-        return offerer.localDescription, answerer.localDescription
+        await offerer.setRemoteDescription(tr(answerer.localDescription))
+        return seen, answerer.localDescription
     return w.run(go())
 
 
@@ -245,9 +269,10 @@ def check_connected(w, a, b, chans, received, round_tag):
     return out
 
 
-def run_config(cfg, followup=None):
+def run_config(cfg, followup=None, foreign=False, early=False):
     """Returns list of (clause, detail)."""
     w = PcWorld()
+    w.net.check_latency = 0.3 if early else 0.0
     try:
         try:
             a, b, chans = build(w, cfg)
@@ -263,7 +288,7 @@ def run_config(cfg, followup=None):
         for ch in list(chans.values()):
             ch.on("message", lambda m: received.append(m))
         try:
-            offer, answer = negotiate(w, a, b)
+            offer, answer = negotiate(w, a, b, foreign)
         except Exception as e:
             import traceback
             tb = traceback.extract_tb(e.__traceback__)
@@ -276,7 +301,9 @@ def run_config(cfg, followup=None):
         out += check_directions(a, b)
         if out:
             return out
-        out += check_connected(w, a, b, chans, received, "round1")
+        if not (early and followup):
+            # (early: the follow-up negotiation starts at once, while ICE checks and DTLS of the first round are in flight)
+            out += check_connected(w, a, b, chans, received, "round1")
         if out or not followup:
             return out
         # ---- follow-up negotiation
@@ -299,7 +326,7 @@ def run_config(cfg, followup=None):
             elif followup == "swap-roles":
                 offerer, answerer = b, a
                 b.addTransceiver("audio", direction="sendrecv")
-            offer, answer = negotiate(w, offerer, answerer)
+            offer, answer = negotiate(w, offerer, answerer, foreign)
         except Exception as e:
             import traceback
             tb = traceback.extract_tb(e.__traceback__)
@@ -333,14 +360,18 @@ def task(args):
         # follow-ups on the default-codec sub-product
         if all(m[3] == "default" for m in cfg["media"]) and cfg["ob"] == cfg["ab"] and len(cfg["pre"]) <= 1:
             fus += FOLLOWUPS if (tier == "thorough" or cfg["ob"] != "max-compat") else []
-        for fu in fus:
-            T.case(cfg_key(cfg, fu))
-            T.count("configurations" if fu is None else "followup-" + fu)
-            v = run_config(cfg, fu)
+        # every configuration with media also with the two peers numbering payload types / extension ids differently
+        variants = [(fu, f, False) for fu in fus for f in ((False, True) if cfg["media"] else (False,))]
+        variants += [(fu, False, True) for fu in fus if fu is not None]
+        for fu, foreign, early in variants:
+            tag = (" numbering=foreign" if foreign else "") + (" early" if early else "")
+            T.case(cfg_key(cfg, fu) + tag)
+            T.count(("configurations" if fu is None else "followup-" + fu) + ("/foreign-numbering" if foreign else "") + ("/early" if early else ""))
+            v = run_config(cfg, fu, foreign, early)
             for clause, detail in v[:2]:
-                T.violation(clause, clause, "%s [%s]" % (detail, cfg_key(cfg, fu)),
+                T.violation(clause, clause, "%s [%s%s]" % (detail, cfg_key(cfg, fu), tag),
                             dict(kind="config", cfg=dict(cfg, media=[list(m) for m in cfg["media"]], pre=[list(p) for p in cfg["pre"]]),
-                                 followup=fu))
+                                 followup=fu, foreign=foreign, early=early))
             if i % 997 == 0 and fu is None:
                 T.sample(dict(kind="configuration", cfg=cfg_key(cfg, fu)))
     return T
@@ -356,7 +387,9 @@ def run(tier, seed):
              "data channel {no,yes} x bundlePolicy {3}; answerer pre-created transceivers {none, audio, video, audio+video} x "
              "{with, without track} x data channel {no,yes} x bundlePolicy {3}; empty offers excluded; follow-up rounds {offerer "
              "adds the other kind, adds another transceiver of the same kind, adds a data channel, roles swap} on the default-codec "
-             "sub-product. Each configuration: real createOffer/setLocal/setRemote/createAnswer on two real RTCPeerConnections; "
+             "sub-product, each also started EARLY (at once after the first answer is applied, while ICE and DTLS of the first round are still in flight); every configuration with media is run twice: natively, and with the two peers numbering things differently "
+             "(every description crossing between them has its dynamic payload types and header-extension ids renumbered by an "
+             "involution, as if the other peer were a browser). Each configuration: real createOffer/setLocal/setRemote/createAnswer on two real RTCPeerConnections; "
              "oracle: no call raises, both stable, answer sections mirror the offer (count/order/kind/mid), BUNDLE subset in order, "
              "answer codecs offered with the offerer's payload types, RTX only next to its base, rtcp-fb and header extensions "
              "offered (same ids), definite DTLS role, complementary currentDirection; then run: both connected, negotiated "
@@ -370,7 +403,7 @@ def replay(rep):
     r = rep["replay"]
     cfg = dict(r["cfg"], media=tuple(tuple(m) for m in r["cfg"]["media"]), pre=tuple(tuple(p) for p in r["cfg"]["pre"]))
     print(cfg_key(cfg, r.get("followup")))
-    v = run_config(cfg, r.get("followup"))
+    v = run_config(cfg, r.get("followup"), r.get("foreign", False), r.get("early", False))
     for clause, detail in v:
         print("FAILS clause=%s: %s" % (clause, detail))
     return 1 if v else 0
